@@ -42,6 +42,7 @@ def run(ctx):
     ctx.rule(seed)
     ctx.rule(seed_sources)
     ctx.rule(seed_by_identity)
+    ctx.rule(components_in_place)
     ctx.rule(torch_twins)
     ctx.rule(torch_port_geometry)
     ctx.rule(torch_port_spectrum)
@@ -58,6 +59,15 @@ def seed_by_identity(ctx, R="R-C09-seed"):
     cfg = _CFG(tool.node)
     info = c10.manifest_sites(ctx, tool, cfg)
     c10.seed_identity(ctx, tool, cfg, info, R)
+
+
+def components_in_place(ctx, R="R-C09-pipeline"):
+    """compute-feats-from-kaldi-tables applies its pre-processors with in_place=True on a float64 buffer.  What it stores equals
+    "applying the configured pre-processors" only if the in-place variant of each pre-processor computes the values of the plain
+    call: the value rule of the pre-processors (C18), which evaluates every in_place / dtype / axis scenario, is a premise of this
+    property and is re-established here."""
+    from . import c18
+    c18.value(ctx, R)
 
 
 def reiterable_processors(ctx, R="R-C09-pipeline"):
